@@ -181,7 +181,10 @@ Number(t) ==
 \* a complete Hfind walk with the pattern (t, r) in direction d, lengths through Hlength
 Walk(t, r, d) ==
     /\ st = "open" /\ Observers /\ (t = Wild \/ r = Wild)
-    /\ Log("Walk", [tag |-> t, ref |-> r, dir |-> d], [list |-> Listing(mem, t, r)])
+    \* (forward walks are made a second time through an access handle: Hstartread on the pattern, then
+    \*  Hnextread(pattern, DF_CURRENT) until it fails -- the same descriptors, with the lengths Hinquire reports)
+    /\ Log("Walk", [tag |-> t, ref |-> r, dir |-> d],
+           IF d = 0 THEN [list |-> Listing(mem, t, r), nlist |-> Listing(mem, t, r)] ELSE [list |-> Listing(mem, t, r)])
     /\ UNCHANGED <<st, mem, disk, cache, ndds>>
 
 \* Hexist + Hlength
